@@ -47,6 +47,7 @@ pub open spec fn adjusted(sum: f32, clip: Option<f32>, adjust: f32) -> f32 {
 
 // (1) the `.map(..)` closure: body of `x.map(|mut v| { .. })`
 //@extract method bigtools/src/utils/cli/bigwigmerge.rs new "impl MergingValues"
+//@rule R16
 //@presub /\A.*?\.map\(move \|x\| \{\s*x\.map\(\|mut v\| \{(.*?)\n[ \t]*\}\)\s*\}\)\s*\.filter\(.*\Z/ => fn adjust_value(mut v: Value, clip: Option<f32>, adjust: f32) -> Value {\1\n} min=1 count=1
 //@rule R5 min=1
 //@sub /\b(\w+)\.map_or\(\s*([\w\.]+)\s*,\s*\|[^|]*\|[^;]*\);/ => opt_map_or_unknown(\1, \2); min=0
@@ -63,6 +64,7 @@ pub open spec fn adjusted(sum: f32, clip: Option<f32>, adjust: f32) -> f32 {
 
 // (2) the `.filter(..)` closure: the test applied to an Ok value
 //@extract method bigtools/src/utils/cli/bigwigmerge.rs new "impl MergingValues"
+//@rule R16
 //@presub /\A.*?\.filter\(move \|x\| x\.as_ref\(\)\.map_or\(\w+, \|v\| (.*?)\)\),?\s*\);\s*MergingValues \{.*\Z/ => fn keep_value(v: &Value, threshold: f32) -> bool {\n    \1\n} min=1 count=1
 //@sub /([\w\.]+) > ([\w\.]+)/ => f32_gt(\1, \2) min=0
 //@sub /([\w\.]+) >= ([\w\.]+)/ => f32_ge(\1, \2) min=0
@@ -89,6 +91,7 @@ pub assume_specification<T, E, U, F: FnOnce(T) -> U> [Result::<T, E>::map_or] (s
 // parameter type and a contract (Verus closures have no inferred postcondition) by //@sub; that contract is
 // the same as adjust_value's and is proved for the closure body again.
 //@extract method bigtools/src/utils/cli/bigwigmerge.rs new "impl MergingValues"
+//@rule R16
 //@presub /\A.*?\.map\(move \|x\| \{(.*?)\n[ \t]*\}\)\s*\.filter\(.*\Z/ => fn adjust_item(x: Result<Value, MergingValuesError>, clip: Option<f32>, adjust: f32) -> Result<Value, MergingValuesError> {\1\n} min=1 count=1
 //@rule R5 min=1
 //@sub /\b(\w+)\.map_or\(\s*([\w\.]+)\s*,\s*\|[^|]*\|[^;]*\);/ => opt_map_or_unknown(\1, \2); min=0
@@ -106,6 +109,7 @@ pub assume_specification<T, E, U, F: FnOnce(T) -> U> [Result::<T, E>::map_or] (s
 
 // (4) whole body of the `.filter(move |x| ..)` closure
 //@extract method bigtools/src/utils/cli/bigwigmerge.rs new "impl MergingValues"
+//@rule R16
 //@presub /\A.*?\.filter\(move \|x\| (.*?)\),?\s*\);\s*MergingValues \{.*\Z/ => fn keep_item(x: &Result<Value, MergingValuesError>, threshold: f32) -> bool {\n    \1\n} min=1 count=1
 //@sub /([\w\.]+) > ([\w\.]+)/ => f32_gt(\1, \2) min=0
 //@sub /([\w\.]+) >= ([\w\.]+)/ => f32_ge(\1, \2) min=0
